@@ -168,6 +168,12 @@ def corpus_fp(m):
     mbc = m.DragModelMultiBC([m.BCPoint(0.275, V=U.MPS(800)), m.BCPoint(0.255, V=U.FPS(1700))], m.TableG7, U.Gram(11), U.Millimeter(7.8), U.Millimeter(31))
     add([(float(p.Mach).hex(), float(p.CD).hex()) for p in mbc.drag_table] + [float(mbc.BC).hex()])
     add(q_fp(m.Atmo.icao(U.Meter(1500)).pressure))
+    # every field of every object built from explicit quantities (raw magnitudes), and a shot fired with the multi-BC model
+    for o in (dm, mbc, weapon, ammo, atmo, shot, weapon.sight):
+        add(impl.deep_fp(o))
+    shot2 = m.Shot(m.Weapon(U.Centimeter(6), U.Centimeter(25)), m.Ammo(mbc, U.MPS(790)), U.Degree(0), atmo=atmo,
+                   winds=[m.Wind(U.MPS(3), U.Degree(90), U.Meter(400))])
+    add([scen.row_fp(r) for r in calc.fire(shot2, U.Meter(300), U.Meter(100)).trajectory])
     return h.hexdigest()
 
 
